@@ -125,6 +125,8 @@ def run(ctx):
             else:
                 lines.append("hrem %d" % rng.randint(1, nk))
             lines.append("hobs")
+            if rng.random() < 0.05:
+                lines.append("hkeysfail %d" % rng.randint(1, 4))
         lines.append("hfree")
         scripts.append(("hashrand:" + cname, lines))
     lwalks = behaviours.cover_walks(lg, max_walk=700, rng=rng)
@@ -143,6 +145,8 @@ def run(ctx):
             x = rng.randint(1, 5)
             lines.append("lapp %d" % x if r < 0.3 else "lpre %d" % x if r < 0.55 else "lrem %d" % x if r < 0.85 else "lrev" if r < 0.98 else "lfree")
             lines.append("lobs")
+            if rng.random() < 0.05:
+                lines += ["lappfail %d" % x, "lobs"]
         scripts.append(("listrand", lines))
     ctx.extra["edge_cover"] = {"hash": {"states": len(hg.labels), "edges": hg.nedges, "walks": len(hwalks)},
                                "list": {"states": len(lg.labels), "edges": lg.nedges, "walks": len(lwalks)}}
